@@ -261,7 +261,110 @@ func seqString(ops []op, seq []int) string {
 	return strings.Join(p, " ")
 }
 
+// longRun drives a cache of realistic size through a few thousand structured operations in lock step with the model:
+// the internal thresholds (map rebuild after 2*capacity removals) are crossed several times at the sizes actually used
+// (the package default is 512 entries).
+func longRun(c *runner.Ctx, capacity int, useDefault bool, stride, mix int) {
+	lru := valid.NewLRU(capacity)
+	if useDefault {
+		lru = valid.NewLRU()
+		capacity = 512
+	}
+	var log []cbrec
+	lru.SetDelCallBackFn(func(k, v interface{}) { log = append(log, cbrec{fmt.Sprint(k), v}) })
+	m := lrumodel.New(capacity)
+	nKeys := capacity + 1 + stride%5
+	steps := 3*(2*capacity+2) + 2*capacity + 17
+	calls := 0
+	fail := func(step int, what string) {
+		c.Violation("long-run/"+what, map[string]interface{}{"capacity": capacity, "default_constructor": useDefault, "stride": stride, "mix": mix, "step": step, "of": steps})
+	}
+	for i := 0; i < steps; i++ {
+		k := fmt.Sprintf("k%d", (i*stride)%nKeys)
+		lru.Store(k, i)
+		m.Store(k, i)
+		calls++
+		switch mix {
+		case 1: // touch the previous key
+			pk := fmt.Sprintf("k%d", ((i+nKeys-1)*stride)%nKeys)
+			v, ok := lru.Load(pk)
+			mv, mok := m.Load(pk)
+			calls++
+			if ok != mok || (ok && v != mv) {
+				fail(i, "load-mismatch")
+				return
+			}
+		case 2: // look for a key that should be long gone / still there
+			ok0 := fmt.Sprintf("k%d", (i/2)%nKeys)
+			v, ok := lru.Load(ok0)
+			mv, mok := m.Load(ok0)
+			calls++
+			if ok != mok || (ok && v != mv) {
+				fail(i, "load-mismatch")
+				return
+			}
+		case 3: // delete every third step
+			if i%3 == 0 {
+				dk := fmt.Sprintf("k%d", (i/3)%nKeys)
+				lru.Delete(dk)
+				m.Delete(dk)
+				calls++
+			}
+		case 4: // re-store an equal value
+			lru.Store(k, i)
+			m.Store(k, i)
+			calls++
+		}
+		if i%7 == 0 || i > steps-40 {
+			if n := lru.Len(); n != m.Len() {
+				what := "len-mismatch"
+				if n == -1 {
+					what = "len-sentinel"
+				} else if n > capacity {
+					what = "len-over-capacity"
+				}
+				fail(i, what)
+				return
+			}
+			calls++
+		}
+		if len(log) != len(m.Log) {
+			fail(i, "callback-count")
+			return
+		}
+		if n := len(log); n > 0 && (log[n-1].k != m.Log[n-1].K || log[n-1].v != m.Log[n-1].V) {
+			fail(i, "callback-key-or-value")
+			return
+		}
+	}
+	// audit every key
+	for j := 0; j < nKeys; j++ {
+		k := fmt.Sprintf("k%d", j)
+		v, ok := lru.Load(k)
+		mv, mok := m.Load(k)
+		calls++
+		if ok != mok || (ok && v != mv) {
+			fail(steps, "audit-load")
+			return
+		}
+	}
+	c.Done(true, calls)
+	c.Outcome("ok")
+}
+
 func run(c *runner.Ctx) {
+	c.Space("long-runs")
+	for _, cp := range []int{16, 64, 512} {
+		for _, stride := range []int{1, 3, 7, cp - 1, cp, cp + 1, cp + 2} {
+			for mix := 0; mix < 5; mix++ {
+				if !c.Take() {
+					continue
+				}
+				longRun(c, cp, cp == 512, stride, mix)
+				c.Sample(func() interface{} { return map[string]int{"capacity": cp, "stride": stride, "mix": mix} })
+			}
+		}
+	}
 	var cfgs []config
 	depthFor := func(cp int) int {
 		if c.Thorough() {
@@ -381,7 +484,7 @@ func main() {
 	runner.Main(runner.Config{
 		Property:  "C09",
 		Technique: "explicit-state bounded-exhaustive exploration of all operation sequences on the real LRUCache, lock-step against a reference model",
-		Rule: "all sequences of length d over {Store (fresh value = step number),Load,Delete}(k in c+1 colliding keys)+Len on valid.NewLRU(c), c=0..4 (+8), and for c=1..3 additionally StoreSame(k) (a value that is constant per key, so re-storing an equal value is covered) and a key alphabet of unusual keys (nil, 0, \"\", struct{}{}, 1.5), from empty, pre-filled and warm-up states around the map-rebuild threshold, " +
+		Rule: "all sequences of length d over {Store (fresh value = step number),Load,Delete}(k in c+1 colliding keys)+Len on valid.NewLRU(c), c=0..4 (+8), and for c=1..3 additionally StoreSame(k) (a value that is constant per key, so re-storing an equal value is covered) and a key alphabet of unusual keys (nil, 0, \"\", struct{}{}, 1.5), from empty, pre-filled and warm-up states around the map-rebuild threshold, plus 105 structured long runs (thousands of operations, capacities 16, 64 and the package default 512) crossing the rebuild threshold several times, " +
 			"with and without removal callback; every step compared with a slice-based LRU model; non-trivial = sequences containing an eviction whose victim differs between LRU and FIFO order",
 		Assumptions: []string{"reference model internal/lrumodel is the specification of C09", "keys are hashable strings; callbacks do not re-enter the cache"},
 		Run:         run,
